@@ -28,6 +28,11 @@ def corrupt_accept(world, st):
     if not sim or sim[0] == "fail":
         return None
     p = st.op["sem"]["pair"]
+    sem = st.op["sem"]
+    i = p.idx(sem["named"])
+    # the statement leaves a one-unit band in which both outcomes are allowed: only corrupt clear cases
+    if monitors.guard_verdict(sem.get("belief"), sem["max_spread"], sem["named_amt"], sim[0], sim[1], p.decimals[i], p.decimals[1 - i], "ok") is None:
+        return None
     st.res = {"r": "ok", "v": {"events": [{"ty": "wasm", "a": [["_contract_addr", p.addr], ["action", "swap"],
                                                                   ["return_amount", str(sim[0])], ["spread_amount", str(sim[1])],
                                                                   ["commission_amount", str(sim[2])]]}]}}
@@ -40,6 +45,11 @@ def corrupt_reject(world, st):
         return None
     sim = monitors.sim_of(st)
     if not sim or sim[0] == "fail" or sim[1] * 1000 > sim[0]:
+        return None
+    p = st.op["sem"]["pair"]
+    sem = st.op["sem"]
+    i = p.idx(sem["named"])
+    if monitors.guard_verdict(None, sem["max_spread"], sem["named_amt"], sim[0], sim[1], p.decimals[i], p.decimals[1 - i], "guard") is None:
         return None
     st.res = {"r": "err", "e": "Max spread assertion\x1fx"}
     return st
